@@ -5,12 +5,14 @@ package mc
 import (
 	"fmt"
 	"os"
+	"strings"
 	"time"
 
 	"cosmossdk.io/math"
 	sdk "github.com/cosmos/cosmos-sdk/types"
 	llptypes "github.com/elys-network/elys/x/leveragelp/types"
 	perptypes "github.com/elys-network/elys/x/perpetual/types"
+	tiertypes "github.com/elys-network/elys/x/tier/types"
 )
 
 // Engine K part of C10: the exact boundary. For the positions of root R1 the safety factor is set
@@ -269,8 +271,41 @@ func c10kAll() (cases int64, findings []foundViolation) {
 			return w.App.PerpetualKeeper.SetParams(c, &prm) == nil
 		}
 	}
+	// prepared ground "owner_tier_drops": the owner (t3) was rich yesterday — the tier module holds yesterday's
+	// portfolio, recorded the way its hook does — and has moved nearly everything out since: the first action
+	// of today makes the hooks record a SMALL portfolio, the fee tier falls from the top one to the bottom
+	// one INSIDE the open (the plain cases only see it rise)
+	prepare := func(ctx sdk.Context, ground string) {
+		if ground != "owner_tier_drops" {
+			return
+		}
+		t3 := w.A("t3").Addr
+		y := ctx.BlockTime().AddDate(0, 0, -1).Format("2006-01-02")
+		w.App.TierKeeper.SetPortfolio(ctx, tiertypes.NewPortfolioWithContextDate(y, t3, math.LegacyNewDec(1e12)))
+		for _, c := range w.App.BankKeeper.GetAllBalances(ctx, t3) {
+			keep := math.NewInt(3e9)
+			if c.Amount.GT(keep) {
+				_ = w.App.BankKeeper.SendCoins(ctx, t3, w.A("donor").Addr, sdk.NewCoins(sdk.NewCoin(c.Denom, c.Amount.Sub(keep))))
+			}
+		}
+	}
+	type ocRun struct {
+		oc     openCase
+		ground string
+	}
+	var runs []ocRun
 	for _, oc := range ocs {
+		runs = append(runs, ocRun{oc, ""})
+	}
+	for _, oc := range ocs {
+		if strings.Contains(oc.name, "(t3,") {
+			runs = append(runs, ocRun{openCase{oc.name + ",ground=owner_tier_drops", oc.msg}, "owner_tier_drops"})
+		}
+	}
+	for _, rn := range runs {
+		oc := rn.oc
 		ctx := base()
+		prepare(ctx, rn.ground)
 		dry, _ := ctx.CacheContext()
 		msg := oc.msg()
 		if err := deliver(dry, msg); err != nil {
